@@ -254,6 +254,7 @@ func (tst *tsTable) startLoop(cur uint64) {
 	mergeCh := make(chan *mergerIntroduction)
 	introducerWatcher := make(watcher.Channel, 1)
 	flusherWatcher := make(watcher.Channel, 1)
+	verifLoopsStarted(tst, flushCh, mergeCh)
 	// See startLoopWithConditionalMerge for the rationale on routing
 	// through run.Go.
 	ctx := context.Background()
